@@ -83,11 +83,14 @@ PROPS = {
     ),
     "C10": dict(
         technique='runtime monitoring: 128-bit modular / CRT oracle over ref and AVX2 kernels, non-canonical and extremal operands, ASan+UBSan',
+        exhaustive_subspaces=dict(
+            quick=["every product kernel flavour at every length ell with ell mod 64 in {63, 0, 1} in 0..10000 (regime changes of blocked / unrolled loops)"],
+            thorough=["every product kernel flavour at every length ell = 0..10000 (monitors.exhaustive_ell_values)"]),
         runs=std(),
         rule=("case = one product-kernel call (kernel, ref/avx2, ell, operand families of x and y) or one batch of "
               "conversions / block copies (nn, repetition); distinct by descriptor hash; non-trivial when ell >= 1 or "
               "the conversion input is non-empty"),
-        require={"all": ["product_lanes_checked", "conversion_values_checked", "blocks_checked", "concurrent_kernel_calls"]},
+        require={"all": ["product_lanes_checked", "conversion_values_checked", "blocks_checked", "concurrent_kernel_calls", "exhaustive_ell_values"]},
         assumptions=["oracle: operands reduced modulo each prime, products accumulated with 128-bit arithmetic; CRT "
                      "constants recomputed by the oracle", ASAN_NOTE],
     ),
@@ -105,13 +108,16 @@ PROPS = {
     ),
     "C04": dict(
         technique='runtime monitoring: hook H2 stage trace checked online by a 128-bit shadow execution with operand-fit predicates, worst-case operand workloads, hill-climbing on observed maxima, ASan+UBSan',
+        exhaustive_subspaces=dict(
+            quick=["every product kernel flavour at every length ell with ell mod 64 in {63, 0, 1} in 0..10000 (regime changes of blocked / unrolled loops)"],
+            thorough=["every product kernel flavour at every length ell = 0..10000 (monitors.exhaustive_ell_values)"]),
         runs=std(thorough_extra=[
             dict(cfg="plain", tag="q31", defs="-DSPQLIOS_Q120_USE_31_BIT_PRIMES", parts=16, tier="quick", info=True),
             dict(cfg="plain", tag="q29", defs="-DSPQLIOS_Q120_USE_29_BIT_PRIMES", parts=16, tier="quick", info=True)]),
         rule=("case = one product-kernel call on worst-case operands (kernel, ref/avx2, ell, x/y family) or one traced "
               "transform batch (n, lane family, repetition: ntt, intt of its output, intt and ntt on the raw lanes); "
               "distinct by descriptor hash; non-trivial when ell >= 1 / n >= 2 with at least one lane >= 2^63"),
-        require={"all": ["product_lanes_checked", "max_ell_products", "h2_stage_events", "h2_traced_transforms", "concurrently_built_tables", "concurrent_kernel_calls"]},
+        require={"all": ["product_lanes_checked", "max_ell_products", "h2_stage_events", "h2_traced_transforms", "concurrently_built_tables", "concurrent_kernel_calls", "exhaustive_ell_values"]},
         assumptions=["hook H2 reports every stage of the real schedule; the shadow re-executes it in 128-bit arithmetic "
                      "from the library's own metadata and must reproduce the real lanes bit for bit",
                      "the interval envelope is reported as information (conservative bounds), never as a violation",
